@@ -1,4 +1,5 @@
 import TinodeVerif.Model.TopicSys
+import TinodeVerif.Model.TopicP2PRaw
 import TinodeVerif.Driver.Wire
 /-! Driver for the world stream (`TestVerifWorld`): one op per line, one output line per op, rendered exactly like the
 Go harness renders the real frames and state. -/
@@ -289,6 +290,13 @@ def step (st : WSt) (ws : List String) : Option (WSt × String) :=
             | t :: more => (if t.startsWith "chn:" then (t.drop 4).toString else t) :: more
             | [] => []
           let isChanT : Bool := viaChn || (match rest with | t :: _ => st.w.isChanTopic t | [] => false)
+          -- a p2p topic under its routable name: by a third party only (a participant's replies carry the name the topic has
+          -- for that participant: not part of this stream)
+          let rawP2P : Bool := match rest with | t :: _ => isP2PKey t | [] => false
+          let rawKey : TName := rest.headD ""
+          if rawP2P ∧ ((p2pParts rawKey).contains a.uid ∨ (parseAs m).isSome) then none else
+          if rawP2P ∧ op = "sub" then some (c0.opSubStrangerP2P a rawKey) else
+          if rawP2P ∧ op = "get" ∧ rest.getD 1 "" = "desc" then some (c0.opGetDescStrangerP2P a rawKey) else
           match op, rest with
           | "sub", "me" :: _ => some (c0.opSubMe a)
           | "leave", "me" :: _ => some (c0.opLeaveMe a (kvGet m "unsub" = "1"))
